@@ -173,7 +173,10 @@ def gen_scenario(rng):
     backend = None
     if rng.random() < 0.4:
         backend = {"max_circuits": rng.choice([1, 2, 2, 3, None]), "callable": rng.random() < 0.3}
-    return {"kind": kind, "wrapper": wrapper, "rounds": rounds, "plan": plan, "waiting": rng.choice([0.02, 0.02, 0.005, 0.0]), "backend": backend}
+    sc = {"kind": kind, "wrapper": wrapper, "rounds": rounds, "plan": plan, "waiting": rng.choice([0.02, 0.02, 0.005, 0.0]), "backend": backend}
+    if wrapper == "batching" and rng.random() < 0.3:
+        sc["reassign"] = True
+    return sc
 
 
 def execute_twin(sc, delay=0.01, timeout=8.0):
@@ -239,6 +242,9 @@ def execute(sc, waiting=None, delay=0.01, timeout=8.0):
 
                 mine = pickle.loads(pickle.dumps(w)) if copies and i % 2 == 1 else w
                 barrier.wait(5)
+                if sc.get("reassign") and i % 2 == 1:
+                    # a live wrapper gets its constructor parameter assigned again (same value) while other callers are inside it
+                    mine.waiting_duration = waiting
                 r = mine.run([make_pub(kind, j) for j in ids]).result()
                 res[i] = ["ok", [pr.metadata.get("id") for pr in r]]
             except Exception as e:  # noqa: BLE001
@@ -314,6 +320,8 @@ def run_wrapper_level(ctx, prop, n_quick=25, n_thorough=400):
         {"kind": "estimator", "wrapper": "mutex-copies", "rounds": [[[1], [2], [3], [4]], [[5], [6], [7]]], "plan": {}},
         {"kind": "estimator", "wrapper": "batching", "rounds": [[[1, 2], [3]], [[4]], [[5], [6]]], "plan": {"0": ["result", "TwoArgError"]}},
         {"kind": "sampler", "wrapper": "batching", "rounds": [[[1], [2]], [[3]]], "plan": {}, "waiting": 0.0},
+        {"kind": "estimator", "wrapper": "batching", "rounds": [[[1], [2], [3], [4]], [[5], [6], [7]]], "plan": {}, "waiting": 0.02, "reassign": True},
+        {"kind": "sampler", "wrapper": "batching", "rounds": [[[1, 2], [3], [4], [5]], [[6], [7]]], "plan": {}, "waiting": 0.02, "reassign": True},
         # a backend primitive with a job size limit below the batch size (one caller with three pubs; three callers)
         {"kind": "sampler", "wrapper": "batching", "rounds": [[[1, 2, 3]], [[4], [5, 6], [7]]], "plan": {}, "backend": {"max_circuits": 1, "callable": False}},
         {"kind": "estimator", "wrapper": "batching", "rounds": [[[1, 2, 3]], [[4], [5, 6], [7]]], "plan": {}, "backend": {"max_circuits": 2, "callable": True}},
@@ -339,7 +347,7 @@ def run_wrapper_level(ctx, prop, n_quick=25, n_thorough=400):
         nontrivial = sum(len(c) for c in sc["rounds"]) >= 3
         ctx.case({"wrapper_level": sc}, nontrivial=nontrivial, tags=["wrapper-level", "wrapper:" + sc["wrapper"], "faults" if sc["plan"] else "nofaults",
                                                                       "zero-pub-call" if any(not ids for c in sc["rounds"] for ids in c) else "all-nonempty",
-                                                                      "backend-primitive" if sc.get("backend") else "reference-primitive"])
+                                                                      "backend-primitive" if sc.get("backend") else "reference-primitive"] + (["parameter-reassigned-while-in-use"] if sc.get("reassign") else []))
         for p, what in oracle(sc, ex):
             if p == prop or (prop == "C03" and p == "C06"):
                 ctx.violate(what + " [wrapper level]", {"wrapper_level": sc}, ex, key=f"{prop}:wrapper:{what[:50]}")
